@@ -21,6 +21,7 @@ logging.disable(logging.CRITICAL)  # stub S1 (DESIGN.md section 4)
 
 class Ctx:
     replay = False      # concrete mode
+    raw = False         # builders return bare trees
     docs = []           # XML texts rendered in replay mode, in order of construction
     nontrivial = 0      # side channel: paths on which the interesting event happened
     info = {}           # details filled by harnesses (observed / expected / fingerprint)
@@ -28,6 +29,7 @@ class Ctx:
     @classmethod
     def reset(cls, replay=False):
         cls.replay = replay
+        cls.raw = False
         cls.docs = []
         cls.nontrivial = 0
         cls.info = {}
@@ -60,8 +62,20 @@ def render(root):
     return ET.tostring(root, encoding='unicode')
 
 
+def raw(fn):
+    """Run a message/running-order builder but get the bare tree instead of a mosromgr object."""
+    old = Ctx.raw
+    Ctx.raw = True
+    try:
+        return fn()
+    finally:
+        Ctx.raw = old
+
+
 def wrap(root, cls=None):
     """Turn a built tree into a mosromgr object through the most public path available."""
+    if Ctx.raw:
+        return root
     if Ctx.replay:
         text = render(root)
         Ctx.docs.append(text)
